@@ -444,16 +444,20 @@ def real(line: str, budget_s: float = 3.0) -> str:
     global _timeouts
     if _timeouts >= 5:
         return "EXC Timeout(skipped)"      # enough evidence; do not spend minutes on a looping decoder
-    old = signal.signal(signal.SIGALRM, _on_alarm)
-    signal.setitimer(signal.ITIMER_REAL, budget_s)
-    try:
-        return _real(line)
-    except _Timeout:
-        _timeouts += 1
-        return "EXC Timeout"
-    finally:
-        signal.setitimer(signal.ITIMER_REAL, 0)
-        signal.signal(signal.SIGALRM, old)
+    # a call that does not return within the budget is tried once more with a
+    # five times larger one (a loaded machine must not look like a looping decoder)
+    for budget in (budget_s, 5 * budget_s):
+        old = signal.signal(signal.SIGALRM, _on_alarm)
+        signal.setitimer(signal.ITIMER_REAL, budget)
+        try:
+            return _real(line)
+        except _Timeout:
+            pass
+        finally:
+            signal.setitimer(signal.ITIMER_REAL, 0)
+            signal.signal(signal.SIGALRM, old)
+    _timeouts += 1
+    return "EXC Timeout"
 
 
 def _real(line: str) -> str:
